@@ -66,10 +66,14 @@ if [ -n "$REPLAY" ]; then exec ./target/release/sim18 replay "$REPLAY"; fi
 MIRI_NOTE=""; MIRI_SEEDS=0; MIRI_RC=0
 # Miri's seeded scheduler + race detector on a small multi-threaded evaluation: 16 seeds on every run,
 # 64 in the thorough tier (real overlap of two polls is the one thing the lock-step pool cannot produce)
-if [ "${VERIF_MIRI:-1}" != "0" ]; then
+if [ $RC -eq 1 ]; then
+  MIRI_NOTE="not run: the lock-step half already reported a violation"
+elif [ "${VERIF_MIRI:-1}" != "0" ]; then
   if [ "$TIER" = "thorough" ]; then NSEEDS="${VERIF_MIRI_SEEDS:-64}"; else NSEEDS="${VERIF_MIRI_SEEDS:-16}"; fi
-  ( cd sim/c18_miri && MIRIFLAGS="-Zmiri-many-seeds=0..$NSEEDS -Zmiri-preemption-rate=0.1" cargo +nightly miri run --offline "${CARGO_CFG[@]}" ) > target/c18_miri.log 2>&1
+  # bounded: an evaluation that spins or blocks under Miri's scheduler must not hang the check
+  ( cd sim/c18_miri && MIRIFLAGS="-Zmiri-many-seeds=0..$NSEEDS -Zmiri-preemption-rate=0.1" timeout -k 10 "${VERIF_MIRI_TIMEOUT:-900}" cargo +nightly miri run --offline "${CARGO_CFG[@]}" ) > target/c18_miri.log 2>&1
   MIRI_RC=$?
+  [ $MIRI_RC -eq 124 ] && echo "miri run timed out after ${VERIF_MIRI_TIMEOUT:-900}s" >> target/c18_miri.log
   MIRI_SEEDS=$NSEEDS
   if [ $MIRI_RC -ne 0 ]; then
     if grep -qE 'Data race detected|Undefined Behavior|differ' target/c18_miri.log; then
